@@ -135,10 +135,8 @@ def linear_bad(cfg):
       why.append('dominance-dim-out-of-range')
     elif m(a) == 0 or m(a) != m(b):
       why.append('dominance-between-non-monotone')
-  imin, imax = cfg.get('input_min'), cfg.get('input_max')
-  for lo, hi in zip(imin or [], imax or []):
-    if isinstance(lo, float) and isinstance(hi, float) and lo > hi:
-      why.append('input_min>input_max')
+  # input_min > input_max is not among the property's listed kinds (the layer accepts it when no
+  # constraint needs the ranges and clips to input_max): not demanded here.
   return why
 
 
@@ -218,9 +216,57 @@ def _construct(kind, cfg, weights):
     kerasc.WEIGHT_PROVIDER[0] = None
 
 
+_KIND = {'lattice': ('lattice_layer', 'Lattice'), 'pwl': ('pwl_calibration_layer', 'PWLCalibration'),
+         'linear': ('linear_layer', 'Linear'), 'categorical': ('categorical_calibration_layer', 'CategoricalCalibration'),
+         'kfl': ('kronecker_factored_lattice_layer', 'KroneckerFactoredLattice')}
+
+_SCRIPT = '''
+import numpy as np
+spec = args[0]
+layer = getattr(mod(spec['module']), spec['cls'])(**spec['init'])
+layer.build(spec['shape'])
+res = {}
+for v in layer.weights:
+  if getattr(v, 'constraint', None) is not None:
+    w = tf.constant(np.linspace(-1.5, 2.5, int(np.prod(v.shape))).reshape(v.shape), dtype=v.dtype)
+    out = v.constraint(w)
+    res[v.name] = bool(np.all(np.isfinite(out.numpy())))
+result = res
+'''
+
+
 class ConfigCase(Case):
   contract_key = None
   xcheck = False
+
+  def replay_desc(self, cfg, model, g):
+    kind, kw = cfg['kind'], dict(cfg['kw'])
+    for k in ('edgeworth_trusts', 'trapezoid_trusts', 'monotonic_dominances', 'range_dominances', 'monotonicities'):
+      if isinstance(kw.get(k), list) and kw[k] and isinstance(kw[k][0], list):
+        kw[k] = [{'__tuple__': t} for t in kw[k]]
+    if kind == 'lattice':
+      rank = len(kw['lattice_sizes'])
+      shape = [None, rank] if kw.get('units', 1) == 1 else [None, kw['units'], rank]
+    elif kind == 'linear':
+      shape = [None, kw['num_input_dims']]
+    elif kind == 'kfl':
+      shape = [None, 2]
+    else:
+      shape = [None, kw.get('units', 1)]
+    m, c_ = _KIND[kind]
+    return {'kind': 'script', 'code': _SCRIPT, 'floatx': 'float32',
+            'args': [{'module': m, 'cls': c_, 'init': kw, 'shape': shape}], 'kwargs': {}}
+
+  def replay_eval(self, cfg, model, g, desc, nat):
+    failing = []
+    if 'error' in nat:
+      failing.append('raised ' + nat['error'][:200])
+    else:
+      for name, finite in (nat['ok'] or {}).items():
+        if not finite:
+          failing.append('non-finite projected weights in ' + name)
+    return {'desc': {k: v for k, v in desc.items() if k != 'code'}, 'native': {k: v for k, v in nat.items() if k != 'trace'},
+            'failing': failing}
 
   def loop_mode(self, cfg):
     return ('unroll',)
